@@ -54,8 +54,12 @@ type c09Sched struct {
 	// shadow of the condition variable: who waits (in order), who was notified and has not returned yet
 	waiters map[string]bool
 	transit []time.Time // notifications sent under L whose receiver has not returned from Wait yet
+	polls    map[string]int    // per caller thread: polling records (js / sp) so far
+	decided  map[string]int    // per caller thread: its polls at the time of the last SetWorkerCount decision of ANOTHER thread
+	reassert map[string]int    // per caller thread: its polls at its last jk
 	foreign  map[interface{}]int
 	bcasting int   // unlocked broadcasts between their pre hook and their record
+	decidedAny bool
 	nRecords int64 // every handled hook event / note
 	created  int   // workers created so far (from su records), exited = ex records
 	exited   int
@@ -64,7 +68,7 @@ type c09Sched struct {
 
 func newC09Sched() *c09Sched {
 	return &c09Sched{recording: true, labels: map[int64]string{}, last: map[string]string{},
-		prio: map[string]int{}, holdAt: map[int]bool{}, lastWS: map[string][3]int{}, waiters: map[string]bool{}, foreign: map[interface{}]int{}, lastNano: time.Now().UnixNano()}
+		prio: map[string]int{}, holdAt: map[int]bool{}, lastWS: map[string][3]int{}, waiters: map[string]bool{}, foreign: map[interface{}]int{}, polls: map[string]int{}, decided: map[string]int{}, reassert: map[string]int{}, lastNano: time.Now().UnixNano()}
 }
 
 func c09Goid() int64 {
@@ -244,9 +248,19 @@ func (s *c09Sched) handle(point string, args ...interface{}) {
 	if info.code == "bc" && s.bcasting > 0 {
 		s.bcasting--
 	}
-	for (info.code == "bw" || info.code == "aw") && s.bcasting > 0 && s.recording {
+	for spin, t0 := 0, time.Now(); (info.code == "bw" || info.code == "aw") && s.bcasting > 0 && s.recording; spin++ {
+		// bounded (2 s): the gate is only up while a broadcaster is between its pre hook and its record — a
+		// few instructions unless that goroutine is descheduled; after the bound the record is taken anyway
+		// (the validator then resolves the order by its alternatives)
+		if spin > 1000 && time.Since(t0) > 2*time.Second {
+			break
+		}
 		s.mu.Unlock()
-		runtime.Gosched()
+		if spin < 1000 {
+			runtime.Gosched()
+		} else {
+			time.Sleep(20 * time.Microsecond)
+		}
 		s.mu.Lock()
 	}
 	text := info.code
@@ -299,8 +313,24 @@ func (s *c09Sched) handle(point string, args ...interface{}) {
 		}
 	case "js":
 		s.lastWS[thread] = [3]int{args[0].(int), 0, args[1].(int)}
+		s.polls[thread]++
+	case "sp":
+		s.polls[thread]++
+	case "jk":
+		s.reassert[thread] = 1 // re-asserted since the last decision of another thread
+
 	case "ws":
 		s.lastWS[thread] = [3]int{args[0].(int), args[1].(int), args[2].(int)}
+	}
+	if info.code == "su" || info.code == "sd" {
+		// a SetWorkerCount decision: every other polling caller has been overruled from here on
+		for th, n := range s.polls {
+			if th != thread {
+				s.decided[th] = n
+				s.reassert[th] = 0
+			}
+		}
+		s.decidedAny = true
 	}
 	var rule *c09Rule
 	delay, hold := 0, false
@@ -479,12 +509,85 @@ func (s *c09Sched) Quiesce(max time.Duration) bool {
 				return true
 			}
 		}
-		if time.Since(t0) > 2*max && time.Now().UnixNano()-atomic.LoadInt64(&s.lastNano) > int64(2*max) {
+		if time.Since(t0) > 5*max && time.Now().UnixNano()-atomic.LoadInt64(&s.lastNano) > int64(5*max) {
 			return false
 		}
 		time.Sleep(300 * time.Microsecond)
 	}
 	return false
+}
+
+// PollsSinceOverruled: how many polling iterations a caller thread made since another thread's
+// SetWorkerCount decision without re-asserting (jk) since then; -1 if it was never overruled. This
+// counts the caller's OWN loop iterations, so it does not depend on the machine's load.
+func (s *c09Sched) PollsSinceOverruled(thread string) int {
+	s.mu.Lock()
+	defer s.mu.Unlock()
+	d, ok := s.decided[thread]
+	if !ok {
+		return -1
+	}
+	if s.reassert[thread] != 0 {
+		return 0
+	}
+	return s.polls[thread] - d
+}
+
+func (s *c09Sched) Polls(thread string) int {
+	s.mu.Lock()
+	defer s.mu.Unlock()
+	return s.polls[thread]
+}
+
+func (s *c09Sched) ThreadOf(gid int64) string {
+	s.mu.Lock()
+	defer s.mu.Unlock()
+	return s.labels[gid]
+}
+
+// WorkersParked reports, from the goroutine stacks, whether EVERY live worker goroutine is blocked
+// inside sync.Cond.Wait without having been notified (state "sync.Cond.Wait"; a notified goroutine that
+// has not run yet is "runnable"). live = number of live workers looked at.
+func (s *c09Sched) WorkersParked() (all bool, live int) {
+	buf := make([]byte, 1<<20)
+	n := runtime.Stack(buf, true)
+	state := map[int64]string{}
+	for _, blk := range strings.Split(string(buf[:n]), "\n\n") {
+		var id int64
+		var st string
+		if k := strings.Index(blk, "goroutine "); k >= 0 {
+			rest := blk[k+10:]
+			if sp := strings.Index(rest, " ["); sp > 0 {
+				id, _ = strconv.ParseInt(rest[:sp], 10, 64)
+				if e := strings.Index(rest, "]"); e > sp {
+					st = rest[sp+2 : e]
+				}
+			}
+		}
+		if id != 0 {
+			state[id] = st
+		}
+	}
+	s.mu.Lock()
+	defer s.mu.Unlock()
+	all = true
+	for gid, th := range s.labels {
+		if th[0] != 'w' || s.last[th] == "ex" {
+			continue
+		}
+		st, ok := state[gid]
+		if !ok {
+			continue // goroutine ended
+		}
+		live++
+		if !strings.HasPrefix(st, "sync.Cond.Wait") {
+			all = false
+		}
+	}
+	if s.started < s.created {
+		all = false
+	}
+	return all, live
 }
 
 // Records returns the number of records handled so far.
